@@ -36,6 +36,20 @@ example : (Lru.run (Lru.new 2 : Lru.Cache Nat Nat) [.set 1 10, .set 2 20, .get 1
 theorem spec_get_keeps_bindings {K V : Type} [DecidableEq K] (s : Lru.Spec K V) (k k' : K) :
     Lru.Spec.find (Lru.Spec.get s k).1 k' = Lru.Spec.find s k' := find_get s k k'
 
+/-- **node_key_stable** (pointer stability, for the `*Entry`-returning API `Gen.entryPointerAPIs` =
+`GetEntry`): starting from a new cache, whatever operations run, a node that exists after a prefix of
+the operations still exists after the whole sequence and still carries the same key: nodes are never
+recycled for another key, so a pointer obtained for key `k` can never alias the binding of another
+key. (The seeded "re-key the evicted node in place" edit breaks exactly this; Gen refuses it.) -/
+theorem node_key_stable {K V : Type} [DecidableEq K] (capacity : Int) (ops1 ops2 : List (Lru.Op K V))
+    (c1 c2 : Lru.Cache K V) (o1 o2 : List (Lru.Out V))
+    (h1 : Lru.run (Lru.new capacity) ops1 = some (c1, o1)) (h2 : Lru.run c1 ops2 = some (c2, o2))
+    (i : Nat) (n : Lru.Node K V) (hn : c1.heap i = some n) :
+    ∃ n', c2.heap i = some n' ∧ n'.key = n.key := by
+  have hb0 : Lru.HB (Lru.new capacity : Lru.Cache K V).heap (Lru.new capacity : Lru.Cache K V).fresh := fun _ _ => rfl
+  have s1 := Lru.run_stable _ c1 ops1 o1 h1 hb0
+  exact (Lru.run_stable c1 c2 ops2 o2 h2 s1.2).1 i n hn
+
 /-! ### TTLs -/
 
 /-- **expiry_le_every_ttl.** Whatever the upstream script (UDP events, TCP connections) and the
@@ -252,26 +266,65 @@ theorem no_poison (cfg : Config) (st : State) (name : String) (up : Upstream)
       exact hnf _ rfl
 
 
-/-- **answers_only_partial.** What is proved: the result builder of a lookup is a function of the
-messages that really came from upstream only — datagrams whose source is the configured server and
-frames of the lookup's own TCP connections (`Sourced (FromUpstream up)`); datagrams from other
-sources never reach `parseMsg` (see `expiry_le_every_ttl` for the same trace), messages with a
-foreign id are rejected by `idCheck` before any effect, and rejected messages never complete a family
-(`parseMsg_err_done`). Missing for the full `answers_only`: the explicit statement that every address
-of the result is the address of an A/AAAA record in the answer section of one of those messages with
-id 4 or 6 (a fold lemma over `applyAns`; checked on every run by the oracle keys `foreign-address`,
-`answers-not-returned`). -/
-theorem answers_only_partial (cfg : Config) (now : Nat) (up : Upstream) :
-    (∃ tr, (sendQueries cfg now up).b = feed {} tr ∧ Sourced (FromUpstream up) tr) ∧
-    (∀ b t m u, m.id ≠ idV4 → m.id ≠ idV6 → parseMsg b t (.msg m) u = (b, none)) := by
-  refine ⟨sendQueries_trace cfg now up, ?_⟩
-  intro b t m u h4 h6
+/-! ### Only upstream's answers -/
+
+/-- **answers_only.** Every address in the builder `sendQueries` ends with — hence in every fresh
+lookup result (`fresh_is_builder`) — is the address of an A/AAAA record in the answer section of a
+message that (i) really came from upstream for this lookup: a datagram whose source is the configured
+server address or a frame on one of the lookup's own TCP connections (datagrams from other sources are
+never parsed), (ii) carries one of the lookup's own two transaction ids, and (iii) is a response
+(QR=1) with RA=1. For all upstream scripts, orders, transports and timings. -/
+theorem answers_only (cfg : Config) (now : Nat) (up : Upstream) (x : String)
+    (hx : x ∈ (sendQueries cfg now up).b.addrs) :
+    ∃ m, FromUpstream up (.msg m) ∧ AddrIn m x := by
+  obtain ⟨tr, h1, h2⟩ := sendQueries_trace cfg now up
+  rw [h1] at hx
+  rcases feed_addrs tr {} x hx with h | ⟨e, he, m, hm, ha⟩
+  · simp [Builder.addrs] at h
+  · exact ⟨m, by rw [← hm]; exact h2 e he, ha⟩
+
+example : "c0000201" ∈ (sendQueries { hasUDP := false, hasTCP := true, cap := 4 } 0 f11Up).b.addrs := by decide
+
+/-- a message with a foreign transaction id has no effect at all -/
+theorem foreign_id_no_effect (b : Builder) (t : Nat) (m : Msg) (u : Bool) (h4 : m.id ≠ idV4) (h6 : m.id ≠ idV6) :
+    parseMsg b t (.msg m) u = (b, none) := by
   simp [parseMsg, idCheck, h4, h6]
+
+/-- **answers_only_conc.** Concurrent lookups on one resolver: each `Lookup` is a locked cache probe
+(`Act.probe`), an unlocked upstream round trip, and a locked store (`Act.finish`); the actions of any
+number of goroutines interleave ARBITRARILY, the cache has any capacity (evictions included). In every
+interleaving, every result handed to a caller for name `X` — fresh, served from the cache, or stale —
+is the completed result of an upstream round trip that was made for a lookup of `X` itself
+(`Justified`: some goroutine probed `X` at `t0`, its round trip ended with script `up`, the result is
+what `sendQueries` built from `up`), and so every address in it comes from an accepted upstream answer
+to a query for `X` (`answers_only`). No binding ever moves from one name to another. This rests on the
+Gen facts that `Lookup` reads the cache only by `Get(name)` and writes it only by `Set(name, result)`
+under the mutex (no entry pointer survives the unlocked part), and on `lru_refines_map` for the cache. -/
+theorem answers_only_conc (cfg : Config) (acts : List Act) :
+    ∀ e ∈ (crun cfg {} acts).2, ∀ r, Carries e.out r →
+      ∃ tid t0 up, Act.probe tid e.name t0 ∈ acts ∧ Act.finish tid up ∈ acts ∧
+        (sendQueries cfg t0 up).b.isDone = true ∧ r = (sendQueries cfg t0 up).b.result ∧
+        ∀ x ∈ r.a ++ r.aaaa, ∃ m, FromUpstream up (.msg m) ∧ AddrIn m x := by
+  have hinv : CInv cfg [] ({} : CState) := ⟨(by intro kv h; cases h), (by intro tp h; cases h)⟩
+  obtain ⟨_, h2⟩ := crun_inv cfg acts [] {} hinv
+  intro e he r hr
+  obtain ⟨tid, t0, up, p1, p2, p3, p4⟩ := h2 e he r hr
+  simp only [List.nil_append] at p1 p2
+  refine ⟨tid, t0, up, p1, p2, p3, p4, ?_⟩
+  intro x hx
+  rw [p4] at hx
+  exact answers_only cfg t0 up x hx
+
+/-- the Gen facts the concurrent model and the pointer-level cache model stand on (GEN-BROKEN, i.e. a
+broken tie, if the source has another shape) -/
+theorem gen_shapes : lookupProbeIsGet = true ∧ lookupStoreIsSetByName = true ∧ insertAllocatesFreshNode = true := by
+  decide
 
 end SSV.C17
 
 #print axioms SSV.C17.lru_refines_map
 #print axioms SSV.C17.spec_get_keeps_bindings
+#print axioms SSV.C17.node_key_stable
 #print axioms SSV.C17.expiry_le_every_ttl
 #print axioms SSV.C17.fresh_is_builder
 #print axioms SSV.C17.no_reuse_after_expiry
@@ -280,4 +333,7 @@ end SSV.C17
 #print axioms SSV.C17.fallback_order
 #print axioms SSV.C17.malformed_never_completes
 #print axioms SSV.C17.no_poison
-#print axioms SSV.C17.answers_only_partial
+#print axioms SSV.C17.answers_only
+#print axioms SSV.C17.foreign_id_no_effect
+#print axioms SSV.C17.answers_only_conc
+#print axioms SSV.C17.gen_shapes
